@@ -34,14 +34,20 @@ PROP = {
              "WHILE it waits (heads of any connection, connections dying / coming back / changing RTT, refreshes): uninitialised "
              "choice, switch of the best connection on death or on falling behind, first head, initialised pool, nothing arrives, "
              "empty pool, random event lists; compared with the model: status, the head handed to the caller (the head it "
-             "received) and the client's connection; oracle best-client-stale-head: a returned head is >= 1. Regression oracles for the four repaired defects and a 1.5 s stress under the real Run loop (publisher + 8 "
+             "received) and the client's connection; oracle best-client-stale-head: a returned head is >= 1. Walks also call the other exported methods (Status, ConnectionsNumber, BestMasterchainInfoClient) between the protocol "
+             "steps, on pools with 0, 1 and 3 connections; c13.repro n8 calls every exported method on pools with 0, 1, 3 "
+             "connections interleaved with addConnection and the waiting entry points, each under a 2 s watchdog (pool-stuck). "
+             "WaitMasterchainSeqno under caller contexts with their own deadline earlier and later than the timeout argument, the "
+             "sufficient head arriving before both / between them / after both (c13.wait deadline shape): verdict nil/timeout/"
+             "deadline vs min(timeout, deadline), latency oracle wait-ends-at-min-timeout-deadline. Regression oracles for the four repaired defects and a 1.5 s stress under the real Run loop (publisher + 8 "
              "callers with 20 ms timeouts + updateBest every 20 ms, watchdog 5 s, key pool-stuck), refreshes with a dead previous "
              "choice while a publisher feeds the alive lowest-RTT connection through the real SetMasterHead and the real Run "
              "drains (every refresh must choose it, key updatebest-racing-head), and a head injected at a schedule point of the "
              "connection interface right after subscribe has read the best head (key subscribe-lost-wakeup) (c13.repro). Source obligations "
              "(C13_gen.v over the go/ast translation of liteapi/pool): no method calls, while holding its receiver's lock, a method "
              "that takes that lock (transitively); lock kinds and call structure are those of the model; the only blocking send "
-             "under a lock is subscribe's into its own fresh channel. A class is (kind, family, strategy/size bucket, outcome)."),
+             "under a lock is subscribe's into its own fresh channel; every Lock/RLock statement is followed at once by its deferred "
+             "unlock (no early return while the lock is held), except SetMasterHead's explicit unlocks. A class is (kind, family, strategy/size bucket, outcome)."),
     'explanation': ("coq/Properties/C13.v, for the model of the repaired liteapi/pool: update_best returns, for every pool, "
                     "strategy and previous choice, exactly the choice the property prescribes among the alive connections at "
                     "most one block behind the newest head (else the previous choice), also when heads rise between the two reads of "
@@ -71,6 +77,7 @@ PROP = {
                     "pools without connections (subscribe dereferences nil bestConn) are outside the quantifier (1..4 connections); proved impossible with >= 1 connection",
                     "connection ids are pairwise different (indices of the servers in the configuration), so sort.Slice's result is determined; addConnection is modelled for initialisation (before waiters exist), not interleaved with the wait-list protocol",
                     "BestMasterchainInfoClient does not wait and its connection is not observable (unexported field): not driven; BestMasterchainClient returns the client of the connection captured at call time even if the best connection switched while it waited (observation: the head then belongs to another connection)",
+                    "time is not in the LTS (timeout and cancellation are always-enabled steps); that the wait ends at min(timeout, context deadline) is checked on the implementation with wall-clock scenarios (margins of 220 ms and more), the model side is the arithmetic min",
                     "wall-clock time and data races (BestArchiveClient reads p.conns unlocked) are not modelled"],
 }
 
